@@ -19,6 +19,7 @@ MemoryStore assigns a dict entry): the crash happens *between* writes, never ins
 from __future__ import annotations
 
 import threading
+import time
 
 from zarr.storage import WrapperStore
 
@@ -51,13 +52,14 @@ class State:
         self.sets = 0              # writes let through since the last reset
         self.crashed = False
         self.events = []           # (kind, key)
+        self.debug = []            # (kind, key, thread name, monotonic time) — diagnostics only
         self.recording = True
         self.trace_gets = False    # also record ("get", key) for chunk keys
         self.inflight = 0          # writes that passed the gate and have not reached the wrapped store yet
 
     def __getstate__(self):
         # the processes executor pickles the store into the workers: they get a disarmed, private copy
-        return {"crash_after": None, "sets": 0, "crashed": False, "events": [], "recording": False,
+        return {"crash_after": None, "sets": 0, "crashed": False, "events": [], "debug": [], "recording": False,
                 "trace_gets": False, "inflight": 0}
 
     def __setstate__(self, d):
@@ -70,6 +72,7 @@ class State:
             self.sets = 0
             self.crashed = False
             self.events = []
+            self.debug = []
 
 
 class CrashStore(WrapperStore):
@@ -101,7 +104,6 @@ class CrashStore(WrapperStore):
     def quiesce(self, timeout=10.0):
         """Wait until every write that passed the gate has reached the wrapped store (zarr issues the chunk writes
         of one selection concurrently; those already admitted when the crash hits still complete)."""
-        import time
         t0 = time.time()
         while self.state.inflight > 0 and time.time() - t0 < timeout:
             time.sleep(0.002)
@@ -125,6 +127,7 @@ class CrashStore(WrapperStore):
                 st.sets += 1
             if st.recording:
                 st.events.append((kind, key))
+                st.debug.append((kind, key, threading.current_thread().name, round(time.monotonic(), 4)))
 
     async def _admitted(self, coro):
         st = self.state
